@@ -167,3 +167,22 @@ pub fn compare_yield(mut got: Vec<(u64, u64)>, mut want: Vec<(u64, u64)>, comple
     Ok(())
 }
 
+
+/// Key with a lawful `Hash` (id only) for any hasher and a payload `Eq` ignores: used where the
+/// collection's own `DefaultHashBuilder` is involved (`From<[T; N]>`).
+#[derive(Clone, Copy, Debug)]
+pub struct ArrKey {
+    pub id: u32,
+    pub tag: u32,
+}
+impl PartialEq for ArrKey {
+    fn eq(&self, o: &ArrKey) -> bool {
+        self.id == o.id
+    }
+}
+impl Eq for ArrKey {}
+impl std::hash::Hash for ArrKey {
+    fn hash<H: std::hash::Hasher>(&self, h: &mut H) {
+        h.write_u32(self.id);
+    }
+}
